@@ -52,6 +52,8 @@ var c15Queries = []string{
 	`subscription { strict }`, // a non-null root field: a failing event leaves no data at all
 	// variables whose coercion is not idempotent (enum with internal values, custom scalar)
 	`subscription P($e: Ev, $c: Cs = "dflt") { pick(e: $e, c: $c) }`,
+	// the root field is reached through the second of two spreads of one fragment, the first excluded
+	`subscription T($a: Boolean = false) { ...F @include(if: $a) ...F @skip(if: $a) ... on S @skip(if: true) { obj { id } } } fragment F on S { tick }`,
 }
 
 var c15Variables = map[string]interface{}{"e": "B", "c": "cv"}
@@ -71,6 +73,9 @@ func c15Model() *model.Schema {
 
 // expectedFor computes the response the subscription's selection gives for one event.
 func expectedFor(query int, ev *subEvent) (data string, nErrors int) {
+	if query == 7 {
+		query = 0 // the same selection as `subscription { tick }`
+	}
 	if query == 6 {
 		// the resolver reports the coerced arguments: the enum's internal value, the scalar's parsed form
 		if ev.Payload == "nilEvent" {
